@@ -133,8 +133,8 @@ Section Speed.
   Notation sp_interp := (@cspeed_interpolate Q Num_Q).
 
   (** the clock runs its speed parameter exactly as C06's [param_run] does *)
-  Lemma clock_run_speed (fuel : nat) (l : list (Q * info Q)) : forall (c c' : clockQ),
-    clock_run powf fuel c l = Ok c' ->
+  Lemma clock_run_speed (l : list (Q * info Q)) : forall (c c' : clockQ),
+    clock_run powf c l = Ok c' ->
     runV powf (cspeed Q) sp_interp (c_speed c) (updatesV (cspeed Q) l) = Ok (c_speed c').
   Proof.
     induction l as [|[dt i] l IH]; intros c c' R.
@@ -145,7 +145,7 @@ Section Speed.
       destruct (negb (c_ticking c)).
       + cbn [obind] in R. apply IH in R. exact R.
       + destruct (state_time (c_state c)) as [tk fr].
-        destruct (tick_loop fuel tk (nadd fr (nmul (as_tps (p_raw sp)) dt))) as [[tk' fr']| |]; cbn [obind] in R; try discriminate.
+        destruct (tick_update tk (nadd fr (nmul (as_tps (p_raw sp)) dt))) as [tk' fr'].
         apply IH in R. exact R.
   Qed.
 
@@ -153,10 +153,10 @@ Section Speed.
       for EVERY list of updates the clock then makes, the speed is the old speed until the tween's
       start time counts, then old + (target - old) * ease(elapsed / duration) in the target's unit,
       and identically the target from the update at which elapsed >= duration. *)
-  Lemma speed_change_when_due_lemma (fuel : nat) (c c' : clockQ) (tg : cspeed Q) (tw : tween Q) (l : list (Q * info Q)) :
+  Lemma speed_change_when_due_lemma (c c' : clockQ) (tg : cspeed Q) (tw : tween Q) (l : list (Q * info Q)) :
     not_delayed (tw_start tw) -> (tw_dur tw <> 0)%Z -> l <> [] ->
     let c0 := clock_on_start c {| k_speed := Some (Fixed tg, tw); k_ticking := None; k_reset := false |} in
-    clock_run powf fuel c0 l = Ok c' ->
+    clock_run powf c0 l = Ok c' ->
     let D := ns_to_secs_Q (tw_dur tw) in
     if completes (tw_start tw) D 0 l
     then p_state (c_speed c') = Idle (Fixed tg) /\ p_raw (c_speed c') = tg
@@ -195,10 +195,10 @@ Section Speed.
   Definition own_updates (k : nat) (l : list (Q * list (slot Q))) : list (Q * info Q) :=
     map (fun x => (fst x, info_for (snd x) k)) l.
 
-  Lemma self_reference_lemma (fuel : nat) (k : nat) (tk : Z) (fr : Q) (l : list (Q * list (slot Q))) :
+  Lemma self_reference_lemma (k : nat) (tk : Z) (fr : Q) (l : list (Q * list (slot Q))) :
     forall (c c' : clockQ) v0 tg t tw,
     midV (cspeed Q) (c_speed c) v0 tg t tw -> tw_start tw = ClockT k tk fr ->
-    clock_run powf fuel c (own_updates k l) = Ok c' ->
+    clock_run powf c (own_updates k l) = Ok c' ->
     midV (cspeed Q) (c_speed c') v0 tg t tw.
   Proof.
     induction l as [|[dt slots] l IH]; intros c c' v0 tg t tw M Hs R.
@@ -213,7 +213,7 @@ Section Speed.
       destruct (negb (c_ticking c)).
       + cbn [obind] in R. eapply IH; [| exact Hs | exact R]. exact M1.
       + destruct (state_time (c_state c)) as [tk0 fr0].
-        destruct (tick_loop fuel tk0 (nadd fr0 (nmul (as_tps (p_raw p1)) dt))) as [[tk' fr']| |]; cbn [obind] in R; try discriminate.
+        destruct (tick_update tk0 (nadd fr0 (nmul (as_tps (p_raw p1)) dt))) as [tk' fr'].
         eapply IH; [| exact Hs | exact R]. exact M1.
   Qed.
 End Speed.
@@ -221,11 +221,11 @@ End Speed.
 (** [Clocks::update] = [for_each]: clock [k] is updated against the storage in which its own slot
     shows the dummy; the others are seen as they are at that moment *)
 Lemma for_each_own_dummy {T : Type} {NT : Num T} {ND : NumDur T} (powf : T -> T -> T)
-      (fuel : nat) (k : nat) (todo : list nat) (slots : list (slot T)) (s : slot T) (dt : T) :
+      (k : nat) (todo : list nat) (slots : list (slot T)) (s : slot T) (dt : T) :
   nth_error slots k = Some s -> sl_life s = Live ->
-  clocks_update_from powf fuel (k :: todo) slots dt =
-    (let! c' := clock_update powf fuel (sl_clock s) dt (info_for slots k) in
-     clocks_update_from powf fuel todo (set_nth k (with_clock s c') slots) dt).
+  clocks_update_from powf (k :: todo) slots dt =
+    (let! c' := clock_update powf (sl_clock s) dt (info_for slots k) in
+     clocks_update_from powf todo (set_nth k (with_clock s c') slots) dt).
 Proof. intros E L. cbn [clocks_update_from]. rewrite E, L. reflexivity. Qed.
 
 (** the witness: two clocks at 2 ticks/s, 512 Hz, buffers of 64 frames, 4 s of audio; clock 0 is told
@@ -237,34 +237,55 @@ Definition f17_ops (on : nat) : list (op Q) :=
    OStartProcessing; OProcess 2048; OStartProcessing].
 Lemma self_reference_witness :
   exists y_own y_other,
-    sys_run (fun _ _ => 0) 100 (sys_new 512 64) (f17_ops 0) = Ok y_own /\
-    sys_run (fun _ _ => 0) 100 (sys_new 512 64) (f17_ops 1) = Ok y_other /\
+    sys_run (fun _ _ => 0) (sys_new 512 64) (f17_ops 0) = Ok y_own /\
+    sys_run (fun _ _ => 0) (sys_new 512 64) (f17_ops 1) = Ok y_other /\
     handle_view y_own 0 = Some (true, 8%Z, 0) /\ handle_view y_own 1 = Some (true, 8%Z, 0) /\
     handle_view y_other 0 = Some (true, 29%Z, 0).
 Proof. eexists. eexists. split; [vm_compute; reflexivity|]. split; [vm_compute; reflexivity|]. repeat split. Qed.
 
-(** ** F7: speeds whose per-update increment [x] satisfies [x >= 1] and [x - 1 = x] *)
+(** ** F7 (repaired): speeds whose per-update increment [x] satisfies [x >= 1] and [x - 1 = x].
+    The OLD loop never returns on them; the new [tick_update] has no loop. *)
 Lemma stuck_never_returns {T : Type} {NT : Num T} (x : T) :
-  nleb n1 x = true -> nsub x n1 = x -> forall (fuel : nat) (tk : Z), is_ok (tick_loop fuel tk x) = false.
+  nleb n1 x = true -> nsub x n1 = x -> forall (fuel : nat) (tk : Z), is_ok (tick_loop_old fuel tk x) = false.
 Proof.
-  intros L S. induction fuel as [|f IH]; intro tk; cbn [tick_loop]; rewrite L; [reflexivity|].
+  intros L S. induction fuel as [|f IH]; intro tk; cbn [tick_loop_old]; rewrite L; [reflexivity|].
   cbn zeta. rewrite S. unfold add_chk. destruct (tk + 1 >? u64_max)%Z; cbn [obind]; [reflexivity|apply IH].
 Qed.
 
 Definition fresh_ticking {T : Type} {NT : Num T} (sp : cspeed T) : clock T :=
   {| c_ticking := true; c_speed := param_new (Fixed sp) (TicksPerMinute (nofZ 120)); c_state := NotStarted |}.
-(** the class: the first increment of a fresh clock never lets the loop condition become false *)
+(** the class: the first increment of a fresh clock never lets the OLD loop condition become false *)
 Definition stuck_increment (sp : cspeed f64) (dt : f64) : Prop :=
   let x := nadd n0 (nmul (as_tps sp) dt) in nleb n1 x = true /\ nsub x n1 = x.
 
-Lemma stuck_clock_never_returns (powf : f64 -> f64 -> f64) (sp : cspeed f64) (dt : f64) (i : info f64) :
-  stuck_increment sp dt -> forall fuel, is_ok (clock_update powf fuel (fresh_ticking sp) dt i) = false.
+Lemma stuck_clock_never_returned (powf : f64 -> f64 -> f64) (sp : cspeed f64) (dt : f64) (i : info f64) :
+  stuck_increment sp dt -> forall fuel, is_ok (clock_update_old powf fuel (fresh_ticking sp) dt i) = false.
 Proof.
-  intros [L S] fuel. unfold clock_update, fresh_ticking, param_update, param_new.
+  intros [L S] fuel. unfold clock_update_old, fresh_ticking, param_update, param_new.
   cbn [c_speed p_stagnant obind c_ticking negb c_state state_time p_raw].
   pose proof (stuck_never_returns _ L S fuel 0%Z) as H.
-  destruct (tick_loop fuel 0 (nadd n0 (nmul (as_tps sp) dt))) as [[tk fr]| |]; cbn [obind is_ok] in *; [discriminate|reflexivity|reflexivity].
+  destruct (tick_loop_old fuel 0 (nadd n0 (nmul (as_tps sp) dt))) as [[tk fr]| |]; cbn [obind is_ok] in *; [discriminate|reflexivity|reflexivity].
 Qed.
+
+(** [Clock::update] as repaired returns whenever its speed parameter's update does — for every
+    number type, every clock, every [dt]: it contains no loop and no checked arithmetic *)
+Lemma clock_update_returns {T : Type} {NT : Num T} {ND : NumDur T} (powf : T -> T -> T)
+      (c : clock T) (dt : T) (i : info T) :
+  is_ok (clock_update powf c dt i) = is_ok (param_update powf (cspeed T) cspeed_interpolate (c_speed c) dt i).
+Proof.
+  unfold clock_update.
+  destruct (param_update powf (cspeed T) cspeed_interpolate (c_speed c) dt i) as [[sp fin]| |]; cbn [obind is_ok]; try reflexivity.
+  destruct (negb (c_ticking c)); [reflexivity|].
+  destruct (state_time (c_state c)) as [tk fr].
+  destruct (tick_update tk (nadd fr (nmul (as_tps (p_raw sp)) dt))) as [tk' fr']. reflexivity.
+Qed.
+
+(** what a clock shows after an update, as integers (ticks, bit pattern of the fraction) *)
+Definition shown (o : outcome (clock f64)) : option (Z * Z) :=
+  match o with
+  | Ok c => match c_state c with Started tk fr => Some (tk, bits_of_f64 fr) | NotStarted => None end
+  | _ => None
+  end.
 
 Definition dt_16_at_512 : f64 := f64_of_bits 4584664420663164928.   (* 16 / 512 s *)
 Definition spt_zero : cspeed f64 := SecondsPerTick (f64_of_bits 0).
@@ -288,14 +309,25 @@ Proof.
   - intros (-> & -> & ->). f_equal. apply UIP_dec. apply Bool.bool_dec.
 Qed.
 
+Definition dt_16_at_1 : f64 := f64_of_bits 4625196817309499392.     (* 16 / 1 s: 16 frames at a 1 Hz device rate *)
+Definition tps_1e9 : cspeed f64 := TicksPerSecond (f64_of_bits 4741671816366391296).
+(** the witnesses replayed on the implementation.  [SecondsPerTick(0.0)] (increment +inf) and
+    [TicksPerSecond(1e300)] (increment 3.125e298) are stuck increments: the old [Clock::update]
+    exhausts any fuel; the repaired one shows (u64::MAX, 0.0).  [TicksPerSecond(1e9)] over 16 s is
+    not stuck, but the old loop needed 1.6e10 iterations (here: more than 200); the repaired update
+    shows (16000000000, 0.0) at once. *)
 Lemma stuck_witnesses :
   stuck_increment spt_zero dt_16_at_512 /\ stuck_increment tps_1e300 dt_16_at_512 /\
-  clock_update (fun _ _ => f64_of_bits 0) 200 (fresh_ticking spt_zero) dt_16_at_512 no_info = Hang /\
-  clock_update (fun _ _ => f64_of_bits 0) 200 (fresh_ticking tps_1e300) dt_16_at_512 no_info = Hang.
+  clock_update_old (fun _ _ => f64_of_bits 0) 200 (fresh_ticking spt_zero) dt_16_at_512 no_info = Hang /\
+  clock_update_old (fun _ _ => f64_of_bits 0) 200 (fresh_ticking tps_1e300) dt_16_at_512 no_info = Hang /\
+  clock_update_old (fun _ _ => f64_of_bits 0) 200 (fresh_ticking tps_1e9) dt_16_at_1 no_info = Hang /\
+  shown (clock_update (fun _ _ => f64_of_bits 0) (fresh_ticking spt_zero) dt_16_at_512 no_info) = Some (u64_max, 0%Z) /\
+  shown (clock_update (fun _ _ => f64_of_bits 0) (fresh_ticking tps_1e300) dt_16_at_512 no_info) = Some (u64_max, 0%Z) /\
+  shown (clock_update (fun _ _ => f64_of_bits 0) (fresh_ticking tps_1e9) dt_16_at_1 no_info) = Some (16000000000%Z, 0%Z).
 Proof.
   split; [split; [vm_compute; reflexivity|apply same_eq; vm_compute; reflexivity]|].
   split; [split; [vm_compute; reflexivity|apply same_eq; vm_compute; repeat split; reflexivity]|].
-  split; vm_compute; reflexivity.
+  repeat split; vm_compute; reflexivity.
 Qed.
 
 (** non-vacuity of [clock_run_exact]'s hypotheses: a linear speed tween 2 -> 4 ticks/s over 1 s,
@@ -305,6 +337,253 @@ Example varying_example :
              {| k_speed := Some (Fixed (TicksPerSecond 4), {| tw_start := Immediate; tw_dur := 1000000000; tw_easing := Linear |});
                 k_ticking := None; k_reset := false |} in
   increments (fun _ _ => 0) (c_speed c) [(1 # 2, no_info); (1 # 2, no_info)] = Ok [3 # 2; 2] /\
-  exists c', clock_run (fun _ _ => 0) 10 c [(1 # 2, no_info); (1 # 2, no_info)] = Ok c' /\ c_state c' = Started 3 (1 # 2).
+  exists c', clock_run (fun _ _ => 0) c [(1 # 2, no_info); (1 # 2, no_info)] = Ok c' /\ c_state c' = Started 3 (1 # 2).
 Proof. split; [vm_compute; reflexivity|]. eexists. split; vm_compute; reflexivity. Qed.
 
+(** * binary64 proper (Flocq reals): the repaired tick split is total, and equal to the old loop
+    wherever that loop was exact.  (Imported here, at the end: from this point on [lra] is the real
+    one; the exact-subtraction lemmas of the carry loops are C01's.) *)
+From Coq Require Import Reals Lra.
+From Flocq Require Import Core IEEE754.BinarySingleNaN.
+From KV Require Import C01.Model C01.ProofsLoops.
+Local Open Scope R_scope.
+
+(** [x - floor x] of a non-negative binary64 number is a binary64 number *)
+Lemma frac_format (x : R) : fmt64 x -> 0 <= x -> fmt64 (x - IZR (Zfloor x)).
+Proof.
+  intros Fx L.
+  assert (Fx' : generic_format radix2 (FLT_exp (-1074) 53) x) by exact Fx.
+  apply FLT_format_generic in Fx'; [|reflexivity].
+  destruct Fx' as [[m e] Hx Hm He]. cbn [Fnum Fexp] in *. unfold F2R in Hx. cbn [Fnum Fexp] in Hx.
+  change (generic_format radix2 (FLT_exp (-1074) 53) (x - IZR (Zfloor x))).
+  destruct (Z_lt_le_dec e 0) as [Hneg|Hpos].
+  - assert (P : IZR (2 ^ (- e)) = bpow radix2 (- e)) by (apply (IZR_Zpower radix2); lia).
+    assert (Pp : (0 < 2 ^ (- e))%Z) by (apply Z.pow_pos_nonneg; lia).
+    assert (Be : 0 < bpow radix2 e) by apply bpow_gt_0.
+    assert (Q : bpow radix2 e = / IZR (2 ^ (- e))) by (rewrite P, bpow_opp, Rinv_inv; reflexivity).
+    assert (M0 : (0 <= m)%Z).
+    { apply le_IZR. apply Rmult_le_reg_r with (bpow radix2 e); [exact Be|]. rewrite Rmult_0_l, <- Hx. exact L. }
+    assert (Fl : Zfloor x = (m / 2 ^ (- e))%Z).
+    { rewrite Hx, Q. apply Zfloor_div. lia. }
+    apply generic_format_FLT.
+    apply (FLT_spec radix2 (-1074) 53 _ (Float radix2 (m mod 2 ^ (- e)) e)).
+    + unfold F2R. cbn [Fnum Fexp]. rewrite Fl, Hx.
+      rewrite (Z.mod_eq m (2 ^ (- e))) by lia. rewrite minus_IZR, mult_IZR, Q.
+      field. apply IZR_neq. lia.
+    + cbn [Fnum]. pose proof (Z.mod_pos_bound m (2 ^ (- e)) Pp) as B.
+      assert (m mod 2 ^ (- e) <= m)%Z by (apply Z.mod_le; lia).
+      rewrite Z.abs_eq by lia. rewrite Z.abs_eq in Hm by lia. lia.
+    + exact He.
+  - assert (P : bpow radix2 e = IZR (2 ^ e)) by (symmetry; apply (IZR_Zpower radix2); lia).
+    assert (N : x = IZR (m * 2 ^ e)) by (rewrite mult_IZR, <- P; exact Hx).
+    rewrite N, Zfloor_IZR, Rminus_diag_eq by reflexivity. apply generic_format_0.
+Qed.
+
+(** [f64::floor] of a finite number *)
+Lemma floor64_correct (x : f64) :
+  is_finite x = true -> is_finite (floor64 x) = true /\ B2R64 (floor64 x) = IZR (Zfloor (B2R x)).
+Proof.
+  intro Fx. destruct (Bnearbyint_correct 53 1024 Hmax64 mode_DN x) as (R & F & _).
+  change (Bnearbyint mode_DN x) with (floor64 x) in *. split; [rewrite F; exact Fx|].
+  rewrite R, round_FIX_IZR. reflexivity.
+Qed.
+
+Lemma sign_of_ge1 (x : f64) : is_finite x = true -> 1 <= B2R x -> Bsign x = false.
+Proof.
+  intros Fx Hx. destruct x as [s|s| |s m e He]; try discriminate.
+  - cbn in Hx. lra.
+  - destruct s; [|reflexivity]. exfalso. cbn in Hx.
+    assert (F2R (Float radix2 (Z.neg m) e) < 0) by (apply F2R_lt_0; reflexivity). lra.
+Qed.
+
+(** an exact, non-negative difference of a non-negative-signed number: finite, exact, sign + *)
+Lemma sub64_exact_sign (x y : f64) :
+  is_finite x = true -> is_finite y = true -> Bsign x = false ->
+  fmt64 (B2R x - B2R y) -> 0 <= B2R x - B2R y -> B2R x - B2R y < bpow radix2 1024 ->
+  is_finite (sub64 x y) = true /\ B2R64 (sub64 x y) = B2R x - B2R y /\ Bsign (sub64 x y) = false.
+Proof.
+  intros Fx Fy Sx Fmt L U.
+  pose proof (Bminus_correct 53 1024 Hprec64 Hmax64 mode_NE x y Fx Fy) as H.
+  change (Bminus mode_NE x y) with (sub64 x y) in H.
+  pose proof (fexp_correct 53 1024 Hprec64) as Vexp.
+  pose proof (valid_rnd_round_mode mode_NE) as Vrnd.
+  rewrite (round_generic radix2 fexp64 (round_mode mode_NE) _ Fmt) in H.
+  rewrite Rlt_bool_true in H by (rewrite Rabs_pos_eq; assumption).
+  destruct H as (HR & HF & HS). split; [exact HF|]. split; [exact HR|].
+  rewrite HS, Sx. destruct (Rcompare_spec (B2R x - B2R y) 0); [lra|reflexivity|reflexivity].
+Qed.
+
+Lemma sub1_exact_sign (x : f64) :
+  is_finite x = true -> 1 <= B2R x <= IZR (2 ^ 53) ->
+  is_finite (sub64 x one64) = true /\ B2R64 (sub64 x one64) = B2R x - 1 /\ Bsign (sub64 x one64) = false.
+Proof.
+  intros Fx Hx. rewrite <- B2R_one64.
+  apply sub64_exact_sign; try assumption; try reflexivity.
+  - apply sign_of_ge1; [exact Fx|lra].
+  - rewrite B2R_one64. apply sub1_format; [apply generic_format_B2R|exact Hx].
+  - rewrite B2R_one64. lra.
+  - rewrite B2R_one64. apply Rle_lt_trans with (IZR (2 ^ 53)); [lra|].
+    change (bpow radix2 1024) with (IZR (2 ^ 1024)). apply IZR_lt. reflexivity.
+Qed.
+
+(** COUNTER-MODEL in binary64: the old loop runs [n = floor x] times, every subtraction exact *)
+Lemma tick_loop_old_b64 (n : nat) : forall (x : f64) (fuel : nat) (tk : Z),
+  is_finite x = true -> Bsign x = false -> INR n <= B2R x < INR n + 1 -> B2R x <= IZR (2 ^ 53) ->
+  (n <= fuel)%nat -> (tk + Z.of_nat n <= u64_max)%Z ->
+  exists r, tick_loop_old (T := f64) fuel tk x = Ok ((tk + Z.of_nat n)%Z, r) /\
+            is_finite r = true /\ B2R64 r = B2R x - INR n /\ Bsign r = false.
+Proof.
+  induction n as [|n IH]; intros x fuel tk Fx Sx Hx U Hf Hb.
+  - exists x.
+    assert (N : nleb n1 x = false).
+    { change (nleb n1 x) with (le64 one64 x). destruct (le64 one64 x) eqn:E; [|reflexivity].
+      apply (ge1_spec x Fx) in E. cbn in Hx. lra. }
+    destruct fuel; cbn [tick_loop_old]; rewrite N; rewrite Z.add_0_r; cbn [INR];
+      (split; [reflexivity|split; [exact Fx|split; [lra|exact Sx]]]).
+  - rewrite S_INR in Hx. pose proof (pos_INR n) as Pn.
+    assert (G : nleb n1 x = true) by (change (nleb n1 x) with (le64 one64 x); apply (ge1_spec x Fx); lra).
+    destruct fuel as [|f]; [lia|].
+    destruct (sub1_exact_sign x Fx) as (F1 & R1 & S1); [lra|].
+    destruct (IH (sub64 x one64) f (tk + 1)%Z F1 S1) as [r (E & Fr & Rr & Sr)];
+      [rewrite R1; lra|rewrite R1; lra|lia|lia|].
+    exists r. cbn [tick_loop_old]. rewrite G. cbn zeta.
+    unfold add_chk. destruct (Z.gtb_spec (tk + 1) u64_max) as [O|O]; [lia|]. cbn [obind].
+    change (nsub x n1) with (sub64 x one64). rewrite E.
+    split; [f_equal; f_equal; lia|]. split; [exact Fr|]. split; [|exact Sr]. rewrite Rr, R1, S_INR. lra.
+Qed.
+
+(** [whole_ticks as u64] for the floor of a finite timer >= 1 *)
+Lemma to_u64_floor64 (x : f64) :
+  is_finite x = true -> 1 <= B2R x -> to_u64_64 (floor64 x) = Z.min u64_max (Zfloor (B2R x)).
+Proof.
+  intros Fx Hx. destruct (floor64_correct x Fx) as [Ff Rf].
+  assert (P : (1 <= Zfloor (B2R x))%Z) by (apply Zfloor_lub; exact Hx).
+  assert (T : to_Z_trunc 53 1024 (floor64 x) = Zfloor (B2R x)).
+  { apply eq_IZR. unfold to_Z_trunc. rewrite Btrunc_correct, round_FIX_IZR, Rf, Ztrunc_IZR; [reflexivity|exact Hmax64]. }
+  unfold to_u64_64, to_u64. rewrite T. unfold u64_max.
+  destruct (floor64 x) as [s|s| |s m e He]; try discriminate;
+    (destruct (Z.ltb_spec (Zfloor (B2R x)) 0); [lia|]);
+    (destruct (Z.geb_spec (Zfloor (B2R x)) (2 ^ 64)); lia).
+Qed.
+
+(** the repaired split on a finite timer >= 1 — of ANY size *)
+Lemma tick_update_b64_ge1 (x : f64) (tk : Z) :
+  is_finite x = true -> 1 <= B2R x -> (0 <= tk <= u64_max)%Z ->
+  exists r, tick_update (T := f64) tk x = (Z.min u64_max (tk + Zfloor (B2R x)), r) /\
+            is_finite r = true /\ B2R64 r = B2R x - IZR (Zfloor (B2R x)) /\ Bsign r = false /\ 0 <= B2R r < 1.
+Proof.
+  intros Fx Hx Htk. destruct (floor64_correct x Fx) as [Ff Rf].
+  assert (P : (1 <= Zfloor (B2R x))%Z) by (apply Zfloor_lub; exact Hx).
+  pose proof (Zfloor_lb (B2R x)) as Lb. pose proof (Zfloor_ub (B2R x)) as Ub.
+  destruct (sub64_exact_sign x (floor64 x) Fx Ff) as (Fr & Rr & Sr).
+  - apply sign_of_ge1; assumption.
+  - rewrite Rf. apply frac_format; [apply generic_format_B2R|lra].
+  - rewrite Rf. lra.
+  - rewrite Rf. apply Rlt_trans with 1; [lra|]. apply (bpow_lt radix2 0 1024). reflexivity.
+  - exists (sub64 x (floor64 x)). unfold tick_update.
+    assert (G : nleb n1 x = true) by (change (nleb n1 x) with (le64 one64 x); apply (ge1_spec x Fx); exact Hx).
+    rewrite G. cbn [nfloor ntoU64 nisfinite nsub Num_f64].
+    change (isfinite64 (floor64 x)) with (is_finite (floor64 x)). rewrite Ff, (to_u64_floor64 x Fx Hx).
+    split; [f_equal; unfold u64_max in *; lia|]. rewrite Rf in Rr.
+    split; [exact Fr|]. split; [exact Rr|]. split; [exact Sr|]. rewrite Rr. lra.
+Qed.
+
+(** a timer that fails the test [timer >= 1.0] (below 1, negative, -inf, NaN) is left as it is —
+    by the old loop and by the repaired update alike *)
+Lemma tick_below_one (x : f64) (fuel : nat) (tk : Z) :
+  le64 one64 x = false ->
+  tick_loop_old (T := f64) fuel tk x = Ok (tk, x) /\ tick_update (T := f64) tk x = (tk, x).
+Proof.
+  intro L. unfold tick_update. change (nleb n1 x) with (le64 one64 x). rewrite L.
+  split; [|reflexivity]. destruct fuel; cbn [tick_loop_old]; change (nleb n1 x) with (le64 one64 x); rewrite L; reflexivity.
+Qed.
+
+(** binary64: wherever the old loop's subtractions were exact (finite timer up to 2^53) and it
+    was given the fuel to finish without overflowing the tick counter, the repaired update
+    returns EXACTLY what the loop returned (same tick count, same float) *)
+Lemma tick_update_agrees_b64 (x : f64) (fuel : nat) (tk : Z) :
+  is_finite x = true -> B2R x <= IZR (2 ^ 53) -> (Z.to_nat (Zfloor (B2R x)) <= fuel)%nat ->
+  (0 <= tk)%Z -> (tk + Zfloor (B2R x) <= u64_max)%Z ->
+  tick_loop_old (T := f64) fuel tk x = Ok (tick_update (T := f64) tk x).
+Proof.
+  intros Fx U Hf Htk Hb.
+  destruct (le64 one64 x) eqn:L.
+  - apply (ge1_spec x Fx) in L.
+    assert (P : (1 <= Zfloor (B2R x))%Z) by (apply Zfloor_lub; exact L).
+    pose proof (Zfloor_lb (B2R x)) as Lb. pose proof (Zfloor_ub (B2R x)) as Ub.
+    assert (EI : INR (Z.to_nat (Zfloor (B2R x))) = IZR (Zfloor (B2R x))) by (rewrite INR_IZR_INZ, Z2Nat.id; [reflexivity|lia]).
+    destruct (tick_loop_old_b64 (Z.to_nat (Zfloor (B2R x))) x fuel tk Fx) as [r (E & Fr & Rr & Sr)];
+      [apply sign_of_ge1; assumption|rewrite EI; lra|exact U|exact Hf|rewrite Z2Nat.id; lia|].
+    destruct (tick_update_b64_ge1 x tk Fx L) as [r' (E' & Fr' & Rr' & Sr' & _)]; [unfold u64_max in *; lia|].
+    rewrite E, E'. rewrite Z2Nat.id by lia. rewrite Z.min_r by lia.
+    f_equal. f_equal. apply B2R_Bsign_inj; [exact Fr|exact Fr'|rewrite Rr, Rr', EI; reflexivity|rewrite Sr, Sr'; reflexivity].
+  - destruct (tick_below_one x fuel tk L) as [A B]. rewrite A, B. reflexivity.
+Qed.
+
+(** binary64: the repaired update is TOTAL.  For every timer value whatsoever — finite of any size,
+    +inf, -inf, NaN, negative — it returns; the tick count never decreases and saturates at
+    [u64::MAX]; when the test [timer >= 1.0] holds the new fraction is a finite number in [0,1)
+    (for a finite timer: exactly [timer - floor timer], with exactly [floor timer] ticks added, for
+    +inf: 0.0 and [u64::MAX] ticks); when it fails (timer below 1, negative, -inf or NaN) ticks
+    and timer are left as they are, as they always were. *)
+Lemma tick_update_total_b64_lemma (tk : Z) (x : f64) :
+  (0 <= tk <= u64_max)%Z ->
+  exists tk' r, tick_update (T := f64) tk x = (tk', r) /\ (tk <= tk' <= u64_max)%Z /\
+    if le64 one64 x then
+      is_finite r = true /\ 0 <= B2R r < 1 /\
+      (is_finite x = true ->
+         B2R64 r = B2R x - IZR (Zfloor (B2R x)) /\ tk' = Z.min u64_max (tk + Zfloor (B2R x))) /\
+      (is_finite x = false -> tk' = u64_max /\ r = B754_zero false)
+    else tk' = tk /\ r = x.
+Proof.
+  intro Htk. destruct (le64 one64 x) eqn:L.
+  - destruct (is_finite x) eqn:Fx.
+    + pose proof L as L1. apply (ge1_spec x Fx) in L1.
+      assert (P : (1 <= Zfloor (B2R x))%Z) by (apply Zfloor_lub; exact L1).
+      destruct (tick_update_b64_ge1 x tk Fx L1 Htk) as [r (E & Fr & Rr & _ & Br)].
+      exists (Z.min u64_max (tk + Zfloor (B2R x))), r. split; [exact E|]. split; [lia|].
+      split; [exact Fr|]. split; [exact Br|]. split; [intros _; split; [exact Rr|reflexivity]|discriminate].
+    + destruct x as [s|s| |s m e He]; try discriminate. destruct s; [discriminate|].
+      exists u64_max, (B754_zero false). split.
+      * unfold tick_update. change (nleb n1 (B754_infinity false)) with true. cbn iota.
+        change (nfloor (B754_infinity false)) with (B754_infinity false : f64).
+        change (ntoU64 (B754_infinity false : f64)) with (2 ^ 64 - 1)%Z.
+        change (nisfinite (B754_infinity false : f64)) with false. cbn iota.
+        f_equal. unfold u64_max in *. lia.
+      * split; [lia|]. split; [reflexivity|]. split; [cbn; lra|]. split; [discriminate|intros _; split; reflexivity].
+  - exists tk, x. destruct (tick_below_one x O tk L) as [_ B]. split; [exact B|]. split; [lia|]. split; reflexivity.
+Qed.
+
+(** F7 regression: on a stuck increment the OLD [Clock::update] never returned; the repaired one
+    returns a started clock with a tick count within [u64] and a finite fraction in [0,1) *)
+Lemma stuck_clock_regression (powf : f64 -> f64 -> f64) (sp : cspeed f64) (dt : f64) (i : info f64) :
+  stuck_increment sp dt ->
+  (forall fuel, is_ok (clock_update_old powf fuel (fresh_ticking sp) dt i) = false) /\
+  exists c' tk fr, clock_update powf (fresh_ticking sp) dt i = Ok c' /\ c_ticking c' = true /\
+                   c_state c' = Started tk fr /\ (0 <= tk <= u64_max)%Z /\
+                   is_finite fr = true /\ 0 <= B2R fr < 1.
+Proof.
+  intro St. split; [apply stuck_clock_never_returned; exact St|]. destruct St as [L _].
+  unfold clock_update, fresh_ticking, param_update, param_new.
+  cbn [c_speed p_stagnant obind c_ticking negb c_state state_time p_raw].
+  set (x := nadd n0 (nmul (as_tps sp) dt)) in *.
+  destruct (tick_update_total_b64_lemma 0 x) as (tk' & r & E & Bt & H); [unfold u64_max; lia|].
+  change (nleb n1 x) with (le64 one64 x) in L. rewrite L in H. destruct H as (Fr & Br & _).
+  rewrite E. eexists. exists tk', r. split; [reflexivity|]. cbn [c_ticking c_state].
+  split; [reflexivity|]. split; [reflexivity|]. split; [lia|]. split; assumption.
+Qed.
+
+(** non-vacuity / examples (observed through bit patterns): 3.5 -> three ticks and 0.5, by the old
+    loop and by the repaired update; -2.5 and NaN are left alone; 2^60 -> 2^60 ticks and 0.0;
+    +inf -> u64::MAX and 0.0; 2^53 + 2 (where the old loop's subtraction rounds) -> exact *)
+Definition split_bits (p : Z * f64) : Z * Z := (fst p, bits_of_f64 (snd p)).
+Example tick_update_examples :
+  match tick_loop_old (T := f64) 5 7 (f64_of_bits 4615063718147915776) with Ok p => split_bits p | _ => (-1, -1)%Z end
+    = (10, 4602678819172646912)%Z /\
+  split_bits (tick_update (T := f64) 7 (f64_of_bits 4615063718147915776)) = (10, 4602678819172646912)%Z /\
+  split_bits (tick_update (T := f64) 7 (f64_of_bits 13836183955189006336)) = (7, 13836183955189006336)%Z /\
+  split_bits (tick_update (T := f64) 7 (f64_of_bits (-1))) = (7, -1)%Z /\
+  split_bits (tick_update (T := f64) 7 (f64_of_bits 4877398396442247168)) = (7 + 2 ^ 60, 0)%Z /\
+  split_bits (tick_update (T := f64) 7 (f64_of_bits 9218868437227405312)) = (u64_max, 0%Z) /\
+  split_bits (tick_update (T := f64) 7 (f64_of_bits 4845873199050653697)) = (7 + 2 ^ 53 + 2, 0)%Z.
+Proof. repeat split; vm_compute; reflexivity. Qed.
